@@ -55,7 +55,7 @@ contract(FS + 'FelicaLite.read_without_mac', 'C20', dict(self=Any(), blocks=Any(
 FL = lambda **kw: Obj(FS + 'FelicaLite', _partial=False,    # noqa
                       model=Obj('models.tag_models:FelicaLiteModel', _partial=False, ck=Bytes(16, 16),
                                 idblock=Bytes(16, 16), rcblock=Const(bytes(16))),
-                      _sk=None, _iv=None, _authenticated=False, **kw)
+                      _sk=None, _iv=None, _authenticated=False, **kw)   # (other attributes: AttributeError)
 FUSE = ['C20/felica.generate_mac', 'C20/felica.write_without_mac', 'C20/felica.read_without_mac']
 contract(FS + 'FelicaLite._authenticate', 'C20', dict(self=FL(), password=Bytes(0, 20)),
          name='C20/FelicaLite._authenticate', requires=['len(password) == 0 or len(password) >= 16'], use=FUSE,
@@ -63,7 +63,11 @@ contract(FS + 'FelicaLite._authenticate', 'C20', dict(self=FL(), password=Bytes(
          ensures=[('O-auth.iff', 'result == (felica_key(password) == self.model.ck)'),
                   ('O-auth.session', 'implies(result, self._sk is not None and self._iv is not None and '
                                      'self._authenticated == True)'),
-                  ('O-auth.no-session', 'implies(not result, self._sk is None and self._authenticated == False)')],
+                  ('O-auth.no-session', 'implies(not result, self._sk is None and self._authenticated == False)'),
+                  # the challenge the tag's answer is checked against was drawn from the random source during THIS
+                  # call (a challenge kept from an earlier authentication lets recorded frames be replayed)
+                  ('O-auth.fresh-challenge', 'len(urandom_draws()) >= 1 and '
+                                             'felica_rc(self.model.rcblock) == bytes(urandom_draws()[-1])')],
          raises={})
 contract(FS + 'FelicaLite._authenticate', 'C20', dict(self=FL(), password=Bytes(1, 15)),
          name='C20/FelicaLite._authenticate.short', use=FUSE, ensures=[('post', 'False')],
